@@ -99,7 +99,7 @@ static const int tcals[] = {CAL_YMD, CAL_YWD, CAL_YMCW};	/* yd has no date-time 
 static const int T7[7] = {0, 1, 3599, 3600, 43199, 43200, 86399};
 
 /* windows W8 */
-static const int win_y0[4] = {1997, 1897, 1601, 4088};
+static int win_y0[4] = {1997, 1897, 1601, 4088};
 static int WIN_YEARS = 8;
 
 struct val_s {
@@ -802,7 +802,11 @@ main(int argc, char *argv[])
 
 	nwin = ex.thorough ? 4 : 1;
 	WIN_YEARS = ex.thorough ? 8 : 4;
-	K = ex.thorough ? 150 : 20;
+	if (!ex.thorough) {
+		/* 1998 has 53 ISO weeks, 2000 is the leap century year */
+		win_y0[0] = 1998;
+	}
+	K = ex.thorough ? 100 : 20;
 	ex_meta("rule", "states = days of the reference calendar, transitions = ordered pairs (A,B) run through ddiff's own pipeline "
 		"(ddiff.c included: determine_durfmt, determine_durtype, dt_dtdiff, __strfdtdur); the printed duration, sign stripped, is given "
 		"token by token to dadd's parser (dt_io_strpdtdur) and applied to the earlier value by dt_dtadd in printed order; the result as "
@@ -817,7 +821,7 @@ main(int argc, char *argv[])
 		"(ii) every day 1601-01-01..4095-12-31 x partner at distance 1..%d x %d (calendar, format) combinations; "
 		"(iii) %s boundary days x 7 times of day, all pairs x %d date-time formats x 3 calendars; "
 		"(iv) binding: %d anchor days x distance -%d..%d x %d formats (ymd) + 6 formats in the other calendars through the ddiff and dadd binaries",
-		nwin, WIN_YEARS, ex.thorough ? "1997-2004, 1897-1904, 1601-1608, 4088-4095" : "1997-2000", NDFMT, K, NLONG,
+		nwin, WIN_YEARS, ex.thorough ? "1997-2004, 1897-1904, 1601-1608, 4088-4095" : "1998-2001", NDFMT, K, NLONG,
 		"40", NTFMT, ex.thorough ? NANCHOR : 6, BIND_K, BIND_K, NDFMT);
 	ex_meta("binding", "ddiff ANCHOR < partners (one process per anchor and format) byte-compared with the included pipeline; "
 		"dadd EARLIER <printed duration> (one process per pair) byte-compared with dt_dtadd's result at library level");
